@@ -138,6 +138,13 @@ CORPUS += [
 G_ = "rl4co/envs/graph/"
 CORPUS += [
     # ---------------------------------------------------------------- C03
+    V("C03", "mcp-every-item-covered", "rl4co/envs/graph/mcp/env.py", 'chosen_items = (chosen_items > 0).float()', 'chosen_items = (chosen_items >= 0).float()', 'C03.f'),
+    V("C03", "mcp-covered-twice-only", "rl4co/envs/graph/mcp/env.py", 'chosen_items = (chosen_items > 0).float()', 'chosen_items = (chosen_items > 1).float()', 'C03.f'),
+    V("C03", "mcp-uncovered-counted", "rl4co/envs/graph/mcp/env.py", 'chosen_items = (chosen_items > 0).float()', 'chosen_items = (chosen_items == 0).float()', 'C03.f'),
+    V("C03", "mcp-last-column-dropped", "rl4co/envs/graph/mcp/env.py", 'chosen_items = chosen_items[:, 1:]  # remove the first column', 'chosen_items = chosen_items[:, :-1]', 'C03.f'),
+    V("C03", "eq-mcp-covered-ge-1", "rl4co/envs/graph/mcp/env.py", 'chosen_items = (chosen_items > 0).float()', 'chosen_items = (chosen_items >= 1).float()', None),
+    V("C03", "eq-mcp-covered-ne-0", "rl4co/envs/graph/mcp/env.py", 'chosen_items = (chosen_items > 0).float()', 'chosen_items = (chosen_items != 0).float()', None),
+    V("C03", "eq-mcp-covered-yoda", "rl4co/envs/graph/mcp/env.py", 'chosen_items = (chosen_items > 0).float()', 'chosen_items = (0 < chosen_items).float()', None),
     V("C03", "ffsp-end-minus-duration", S_ + "ffsp/env.py", 'td["schedule"] + td["job_duration"].permute(0, 2, 1)', 'td["schedule"] - td["job_duration"].permute(0, 2, 1)', 'C03.d'),
     V("C03", "ffsp-duration-not-transposed", S_ + "ffsp/env.py", 'td["schedule"] + td["job_duration"].permute(0, 2, 1)', 'td["schedule"] + td["job_duration"].permute(0, 1, 2)', 'C03.d'),
     V("C03", "ffsp-dummy-job-included", S_ + "ffsp/env.py", 'end_schedule[:, :, : self.num_job].max(dim=-1)', 'end_schedule.max(dim=-1)', 'C03.d'),
